@@ -2,7 +2,7 @@
 from simkit.engine import Prop, run_events, RunResult
 from simkit.gen_iredit import swarm_config
 from simkit.model import scan
-from simkit.listeners import ShadowListener
+from simkit.listeners import ShadowListener, check_partials
 from simkit.violation import Violation
 from checks.c01 import REAL, STUB
 
@@ -35,11 +35,17 @@ class C19(Prop):
         cfg["differential"] = (not cfg["veto"]) and rng.random() < 0.5
         return cfg
 
+    def start(self, w, cfg):
+        self.cfg = cfg
+
     def after(self, w, ev, outcome, pre):
         shadows = [l for l in w.listeners.values() if isinstance(l, ShadowListener)]
         if not shadows:
             return
         if ev["op"] in LISTENER_OPS:
+            if outcome.startswith("refused"):
+                raise Violation("C19.listener_registration", "%s:%s" % (ev["op"], outcome.split(":", 1)[-1]),
+                                "registering or removing a listener (%s) raised %s" % (ev.get("kind", ev.get("id")), outcome))
             return
         if outcome == "refused:Veto":
             for s in shadows:
@@ -52,6 +58,8 @@ class C19(Prop):
         disc = ev["op"] if outcome == "ok" else ev["op"] + ":refused"
         for s in shadows:
             s.compare(objs, disc, w.name_of)
+        if not self.cfg.get("veto"):
+            check_partials(w, disc)   # (a veto ends the round of announcements before later listeners hear it)
 
     def run(self, w, cfg, streams, trace):
         res = run_events(self, w, cfg, streams, trace)
